@@ -14,6 +14,7 @@ import Cinco.Crypto.Digest
 import Cinco.Generated.Effects
 import Cinco.Crypto.Aes256
 import Cinco.Crypto.Hashes
+import Cinco.Config.Links
 /-
   Line-protocol driver: one JSON object per line in, one per line out.
   Every reply is `{"ok": ...}` or `{"err": "..."}` (protocol error) — never a default.
@@ -215,6 +216,27 @@ def handle (cmd : String) (j : Json) : R Json := do
       let (_, outs) := ops.foldl (fun (acc : KeyFile.State × List Json) op =>
         let (s', o) := KeyFile.step acc.1 op
         (s', acc.2 ++ [Json.mkObj [("out", kfOutToJson o), ("state", kfStateToJson s')]])) (init, [])
+      pure (Json.arr outs.toArray)
+  | "links.run" => do
+      -- histories of list operations on a list of configurations: after every operation the held item identities and the index each reports
+      let relink := (fieldOpt j "relink") != some (Json.bool false)
+      let ops ← (← fArr j "ops").mapM (fun o => do
+        match (← fStr o "op") with
+        | "appendNew" => pure Links.Op.appendNew
+        | "insertNew" => pure (Links.Op.insertNew (← fNat o "i"))
+        | "delete" => pure (Links.Op.delete (← fNat o "i"))
+        | "derive" => pure (Links.Op.derive (← fNat o "l"))
+        | "derivePlus" => pure (Links.Op.derivePlus (← fNat o "l"))
+        | "assign" => pure (Links.Op.assign (← fNat o "l"))
+        | "load" => pure (Links.Op.load (← fNat o "k"))
+        | other => throw s!"unknown links op {other}")
+      let (_, outs) := ops.foldl (fun (acc : Links.St × List Json) op =>
+        let s' := Links.step relink acc.1 op
+        let held := s'.contents s'.held
+        (s', acc.2 ++ [Json.mkObj [("held", Json.arr (held.map (fun x => Json.num (JsonNumber.fromNat x))).toArray),
+                                   ("reported", Json.arr (held.map (fun x => match Links.reported s' x with
+                                      | some i => Json.num (JsonNumber.fromNat i) | none => Json.null)).toArray),
+                                   ("next", Json.num (JsonNumber.fromNat s'.next))]])) (Links.init, [])
       pure (Json.arr outs.toArray)
   | "digest.create" => do
       let salt ← match fieldOpt j "salt" with
